@@ -128,6 +128,39 @@ pub fn run(ctx: &mut Ctx) {
             }
         }
     }
+    // size probes: long collections, every element position-marked
+    for n in al::size_classes(ctx.tier_thorough) {
+        if !ctx.mine() {
+            continue;
+        }
+        let coll: Vec<Value> = (0..n).map(|i| match i % 5 { 0 => json!(i), 1 => json!(format!("s{}", i)), 2 => json!(null), 3 => json!([i]), _ => json!({"v": i}) }).collect();
+        let lit = Value::Array(coll.clone());
+        let mut dv = out.clone();
+        dv["coll"] = lit.clone();
+        for (ch, c, d) in [("L", lit.clone(), out.clone()), ("V", json!({"var": "coll"}), dv.clone()), ("C", json!({"merge": [{"var": "coll"}, []]}), dv.clone())] {
+            for e in [json!({"var": ""}), json!({"log": {"var": ""}}), json!({"!": [{"var": ""}]}), json!({"cat": ["<", {"var": ""}, ">"]}), json!({"var": "v"}), json!({"var": "0"})] {
+                ctx.edge();
+                let rm = op("map", vec![c.clone(), e.clone()]);
+                let om = ctx.check(&format!("map:size-probe:{}", ch), &rm, &d);
+                if let Some(Value::Array(a)) = om.ok() {
+                    if a.len() != n {
+                        ctx.law_fail("law:map-length", &rm, &d, format!("length {}", n), format!("length {}", a.len()));
+                    }
+                }
+                let rf = op("filter", vec![c.clone(), e.clone()]);
+                let of = ctx.check(&format!("filter:size-probe:{}", ch), &rf, &d);
+                if let Some(Value::Array(a)) = of.ok() {
+                    if !is_subsequence(a, &coll) {
+                        ctx.law_fail("law:filter-subsequence", &rf, &d, "a subsequence".into(), format!("{} elements", a.len()));
+                    }
+                }
+            }
+            for e in [json!({"cat": [{"var": "accumulator"}, "|", {"var": "current"}]}), json!({"merge": [{"var": "accumulator"}, [{"var": "current"}]]}), json!({"var": "current"}), json!({"log": {"var": "current.v"}})] {
+                ctx.edge();
+                ctx.check(&format!("reduce:size-probe:{}", ch), &op("reduce", vec![c.clone(), e.clone(), json!("")]), &d);
+            }
+        }
+    }
     // null and non-array collections
     if ctx.mine() {
         let noncolls = vec![json!(null), json!("abc"), json!(5), json!(true), json!({}), json!({"a": 1}), json!(""), json!(0), json!(false)];
